@@ -9,4 +9,18 @@ for d, _, fs in os.walk(os.path.join(root, "files")):
         src = os.path.join(d, f)
         rel = os.path.relpath(src, os.path.join(root, "files"))
         rep[os.path.join(repo, rel)] = src
+# instrumented copies: files of the repository whose import of "sync" is rewritten to the scheduling shim
+# internal/verifsync (lock acquisitions become scheduling points of the harness' interleaving explorer, E6)
+gen = os.path.join(os.environ.get("VERIF_DIR", os.path.dirname(root)), "bin", "gen")
+os.makedirs(gen, exist_ok=True)
+for rel in ["internal/index/converters/cachefile.go"]:
+    try:
+        src = open(os.path.join(repo, rel)).read()
+    except OSError:
+        continue
+    if '\t"sync"\n' not in src:
+        continue
+    dst = os.path.join(gen, rel.replace("/", "__"))
+    open(dst, "w").write(src.replace('\t"sync"\n', '\tsync "github.com/spq/pkappa2/internal/verifsync"\n', 1))
+    rep[os.path.join(repo, rel)] = dst
 print(json.dumps({"Replace": rep}, indent=1))
